@@ -106,6 +106,21 @@ Proof.
 Qed.
 Print Assumptions C14_inner_sql_sound.
 
+(* ---- operations: the impl-level dispatch (DefaultImpl / MySQLImpl / MSSQLImpl / PostgresqlImpl .alter_column,
+   add_column, drop_column incl. mssql_drop_*, rename_table) ---- *)
+
+(* every construct the dispatch builds carries the operation's table, column, schema and new names *)
+Theorem C14_plan_carries_names : forall n d o, Forall (step_carries n) (plan n d o).
+Proof. exact plan_carries. Qed.
+Print Assumptions C14_plan_carries_names.
+
+(* hence every statement an operation emits reads back as expected for the names and the schema OF THE OPERATION *)
+Theorem C14_op_main : forall d o n opqs,
+  forallb (fun opq => env_ok (qspec_of d) (op_env n opq)) ([] :: opqs) = true ->
+  steps_hold d n opqs (fst (run_op d o n opqs)).
+Proof. intros d o n opqs E. exact (run_plan_holds d n (plan n d o) (plan_carries n d o) opqs E). Qed.
+Print Assumptions C14_op_main.
+
 (* exact agreement with the model transfers the theorem to the observed output *)
 Theorem C14_corr_transfers : forall d k e out, corr_C14 (CaseStmt d k e) (ObsStmt out) = true ->
   env_ok (qspec_of d) e = true -> C14_holds (d, k, e) out.
@@ -185,6 +200,17 @@ Example C14_inner_sql_nonvacuous :
   = [Word (s2l "alter"); Word (s2l "table"); QIdent (s2l "My"); Punct 46; QIdent (s2l "sch x"); Punct 46;
      QIdent (s2l "it's ]a""b`"); Word (s2l "drop"); Word (s2l "constraint")].
 Proof. split; [vm_compute; tauto|]. split; vm_compute; reflexivity. Qed.
+
+Definition nv_names : names := mkNames (Some (s2l "My.sch x")) (s2l "it's ]a""b`") (s2l "New T") (s2l "select") (s2l "naive col").
+Definition nv_req : areq := mkReq TFalse DSet true true DKeep TNone true TNone DSet false false false.
+
+Example C14_op_main_nonvacuous :
+  forallb (fun opq => env_ok (qspec_of Mssql) (op_env nv_names opq))
+          [[]; [s2l "VARCHAR(5)"]; [s2l "sys.default_constraints"]; [s2l "'x y'"]; []] = true /\
+  length (fst (run_op Mssql (OpAlterColumn nv_req) nv_names
+                      [[s2l "VARCHAR(5)"]; [s2l "sys.default_constraints"]; [s2l "'x y'"]; []])) = 4%nat /\
+  length (fst (run_op Mysql (OpAlterColumn nv_req) nv_names [[s2l "VARCHAR(5)"; s2l "'x y'"; s2l ""]])) = 1%nat.
+Proof. repeat split; vm_compute; reflexivity. Qed.
 
 Example C14_strip_lex_nonvacuous :
   pending (end_st (qspec_of Postgresql) (s2l "ALTER TABLE t ALTER COLUMN c TYPE INTEGER ")) = true /\
